@@ -67,9 +67,13 @@ package withstack
 // ... otherwise any layer that offers a pkg/errors-style StackTrace() - whatever its type - answers with it
 //@   ensures !(cause1(err) != nil && olsOk(cause1(err))) && typeis(err, errbase.StackTraceProvider) ==> file == pkFile(StackTraceM(err)) && line == pkLine(StackTraceM(err)) && fn == pkFn(StackTraceM(err)) && ok == pkOk(StackTraceM(err))
 
+// a layer that offers a pkg/errors-style StackTrace() - whatever else it implements - is
+// reported with the conversion of exactly that stack (C15: one exception per layer that carries one)
+//@ spec func rstOf(st errbase.StackTrace) *ReportableStackTrace
 //@ func GetReportableStackTrace
-//@   props C15
-//@   trusted "result unconstrained: nil or some stack trace object (frames content: parser/runtime, not decided)"
+//@   props C15 C11
+//@   requires err != nil
+//@   ensures typeis(err, errbase.StackTraceProvider) ==> result == rstOf(StackTraceM(err))
 
 // ---- stack conversion / one-line source (C15, C11) ----
 //@ func parsePrintedStack
@@ -82,6 +86,7 @@ package withstack
 
 //@ func convertPkgStack
 //@   props C15 C11
+//@   defines rstOf(st)
 //@   ensures (result == nil) == (len(st) == 0)
 
 // what the printed-stack parser returns, named (the same parser reads a local stack, after
